@@ -25,7 +25,7 @@ func (s *verifSource) Int63() int64 {
 	s.draws = append(s.draws, v)
 	return v
 }
-func (s *verifSource) Uint64() uint64 { return s.src.Uint64() }
+func (s *verifSource) Uint64() uint64  { return s.src.Uint64() }
 func (s *verifSource) Seed(seed int64) { s.src.Seed(seed) }
 
 func verifRand(seed int64) (*mathrand.Rand, *verifSource) {
